@@ -42,7 +42,7 @@ M = [
   "                Nl = np.append(Nl, 0)", "                Nl = np.append(Nl, 1)"),
  ("c05_swap_fp_cp", "C05", "rpylib/montecarlo/statistic/statistic.py",
   "    FP = 0  # fine process position\n    CP = 1", "    FP = 1  # fine process position\n    CP = 0"),
- ("c06_theta_alloc_only", "C06", "rpylib/montecarlo/multilevel/criteria.py", "    theta = THETA\n", "    theta = 0.5\n"),
+ ("c06_theta_alloc_smaller", "C06", "rpylib/montecarlo/multilevel/criteria.py", "    theta = THETA\n", "    theta = 0.1\n"),
  ("c06_never_max_level", "C06", "rpylib/montecarlo/multilevel/engine.py",
   "if has_converged or L == level_max:", "if has_converged or L == level_max + 1:"),
  ("c06_drop_1pct_rule", "C06", "rpylib/montecarlo/multilevel/engine.py",
@@ -77,7 +77,9 @@ M = [
  ("c03_coarse_sigma_fine", "C03", "rpylib/process/coupling/couplingmarkovchain.py",
   "        self.equivalent_diffusion_coefficient_coarse = copy.copy(\n            self.equivalent_diffusion_coefficient_fine\n        )\n        self.fine_process = MarkovChainProcess(",
   "        self.fine_process = MarkovChainProcess("),
- ("c03_refine_off_middle", "C03", "rpylib/grid/spatial.py", "        return 0.5 * (xi + xip)", "        return 0.4 * xi + 0.6 * xip"),
+ ("c03_coarse_drift_not_frozen", "C03", "rpylib/process/coupling/couplingmarkovchain.py",
+  "                        fine_deterministic_path(times_input),\n                        coarse_deterministic_path(times_input),",
+  "                        fine_deterministic_path(times_input),\n                        fine_deterministic_path(times_input),"),
  ("c16_euler_next_state", "C16", "rpylib/process/markovchain/markovchainsde.py",
   "            zi += drift_dt + d_jump + d_diffusion\n            z_drift[:, i]", "            zi += drift_dt + d_jump + 0.5 * d_diffusion\n            z_drift[:, i]"),
  ("c16_coarse_uses_fine_drift", "C16", "rpylib/process/coupling/couplingsde.py",
@@ -88,7 +90,7 @@ M = [
 def main():
     wt = sys.argv[1] if len(sys.argv) > 1 and sys.argv[1].startswith("/") else "/tmp/wt_self"
     flt = [a for a in sys.argv[1:] if not a.startswith("/")]
-    env = dict(os.environ, VERIF_REPO=wt, VERIF_EVIDENCE_DIR="/tmp/mut_evidence", VERIF_REPLAY_DIR="/tmp/mut_replays", VERIF_NO_MINIMISE="1")
+    env = dict(os.environ, VERIF_REPO=wt, VERIF_EVIDENCE_DIR="/tmp/mut_evidence", VERIF_REPLAY_DIR="/tmp/mut_replays", VERIF_NO_MINIMISE="1", VERIF_SCREEN="1")
     results = []
     for name, pid, f, old, new in M:
         if flt and not any(x in name for x in flt):
